@@ -127,6 +127,7 @@ class UpdateLocationAnswer(UpdateLocation):
         AvpGenDef("ula_flags", AVP_TGPP_ULA_FLAGS, VENDOR_TGPP),
         AvpGenDef("subscription_data", AVP_TGPP_SUBSCRIPTION_DATA, VENDOR_TGPP, type_class=SubscriptionData),
         AvpGenDef("reset_id", AVP_TGPP_RESET_ID, VENDOR_TGPP),
+        AvpGenDef("failed_avp", AVP_FAILED_AVP, type_class=FailedAvp),
         AvpGenDef("proxy_info", AVP_PROXY_INFO, type_class=ProxyInfo),
         AvpGenDef("route_record", AVP_ROUTE_RECORD)
     )
@@ -192,6 +193,7 @@ class UpdateLocationRequest(UpdateLocation):
         AvpGenDef("user_name", AVP_USER_NAME, is_required=True),
         AvpGenDef("oc_supported_features", AVP_OC_SUPPORTED_FEATURES, type_class=OcSupportedFeatures),
         AvpGenDef("supported_features", AVP_TGPP_SUPPORTED_FEATURES, VENDOR_TGPP, type_class=SupportedFeatures),
+        AvpGenDef("terminal_information", AVP_TGPP_TERMINAL_INFORMATION, VENDOR_TGPP, type_class=TerminalInformation),
         AvpGenDef("rat_type", AVP_TGPP_RAT_TYPE, VENDOR_TGPP, is_required=True),
         AvpGenDef("ulr_flags", AVP_TGPP_ULR_FLAGS, VENDOR_TGPP, is_required=True),
         AvpGenDef("ue_srvcc_capability", AVP_TGPP_UE_SRVCC_CAPABILITY, VENDOR_TGPP),
